@@ -38,13 +38,20 @@ Section CompVec.
     s_pushed : list T;
     s_prev_pushed : list T;
     s_prev_stored_len : N;
+    s_ssc : N;                     (* saved_stamped_changes (retention k) *)
+    s_changes : option (list (N * list N));   (* the directory changes/<name>/<index>: stamp -> bytes, ascending; None = absent *)
   }.
 
-  Definition set_hdr (s : cvs) h m := mkCvs h m (s_data s) (s_pg s) (s_stored_len s) (s_pushed s) (s_prev_pushed s) (s_prev_stored_len s).
-  Definition set_data (s : cvs) d := mkCvs (s_hdr s) (s_hdr_mod s) d (s_pg s) (s_stored_len s) (s_pushed s) (s_prev_pushed s) (s_prev_stored_len s).
-  Definition set_pg (s : cvs) p := mkCvs (s_hdr s) (s_hdr_mod s) (s_data s) p (s_stored_len s) (s_pushed s) (s_prev_pushed s) (s_prev_stored_len s).
-  Definition set_stored_len (s : cvs) n := mkCvs (s_hdr s) (s_hdr_mod s) (s_data s) (s_pg s) n (s_pushed s) (s_prev_pushed s) (s_prev_stored_len s).
-  Definition set_pushed (s : cvs) l := mkCvs (s_hdr s) (s_hdr_mod s) (s_data s) (s_pg s) (s_stored_len s) l (s_prev_pushed s) (s_prev_stored_len s).
+  Definition set_hdr (s : cvs) h m := mkCvs h m (s_data s) (s_pg s) (s_stored_len s) (s_pushed s) (s_prev_pushed s) (s_prev_stored_len s) (s_ssc s) (s_changes s).
+  Definition set_data (s : cvs) d := mkCvs (s_hdr s) (s_hdr_mod s) d (s_pg s) (s_stored_len s) (s_pushed s) (s_prev_pushed s) (s_prev_stored_len s) (s_ssc s) (s_changes s).
+  Definition set_pg (s : cvs) p := mkCvs (s_hdr s) (s_hdr_mod s) (s_data s) p (s_stored_len s) (s_pushed s) (s_prev_pushed s) (s_prev_stored_len s) (s_ssc s) (s_changes s).
+  Definition set_stored_len (s : cvs) n := mkCvs (s_hdr s) (s_hdr_mod s) (s_data s) (s_pg s) n (s_pushed s) (s_prev_pushed s) (s_prev_stored_len s) (s_ssc s) (s_changes s).
+  Definition set_pushed (s : cvs) l := mkCvs (s_hdr s) (s_hdr_mod s) (s_data s) (s_pg s) (s_stored_len s) l (s_prev_pushed s) (s_prev_stored_len s) (s_ssc s) (s_changes s).
+
+  Definition set_prev (s : cvs) (pp : list T) (psl : N) :=
+    mkCvs (s_hdr s) (s_hdr_mod s) (s_data s) (s_pg s) (s_stored_len s) (s_pushed s) pp psl (s_ssc s) (s_changes s).
+  Definition set_roll (s : cvs) (k : N) (ch : option (list (N * list N))) :=
+    mkCvs (s_hdr s) (s_hdr_mod s) (s_data s) (s_pg s) (s_stored_len s) (s_pushed s) (s_prev_pushed s) (s_prev_stored_len s) k ch.
 
   Definition real_stored_len (s : cvs) : N := pages_stored_len PER_PAGE (pg_vec (s_pg s)).
   Definition cv_len (s : cvs) : N := s_stored_len s + len (s_pushed s).
@@ -115,7 +122,11 @@ Section CompVec.
     let '(h, d) := hd in
     let! pg := pages_import disk in
     let n := pages_stored_len PER_PAGE (pg_vec pg) in
-    Ok (mkCvs h false d pg n [] [] n).
+    Ok (mkCvs h false d pg n [] [] n 0 None).
+
+  (* ImportOptions::saved_stamped_changes; the change directory is on disk and survives *)
+  Definition cv_import_k (k : N) (ch : option (list (N * list N))) (data : list cell) (disk : list N) : res cverr cvs :=
+    let! s := cv_import data disk in Ok (set_roll s k ch).
 
   (* ---- truncate / reset (read_write/writable.rs:23,30; base/read_write.rs:198,215) ------- *)
   Definition cv_truncate (s : cvs) (index : N) : cvs :=
@@ -130,7 +141,8 @@ Section CompVec.
     let s1 := set_pg s (pages_reset (s_pg s)) in
     let s2 := cv_truncate s1 0 in
     (* reset_base: pushed.clear() (current and previous), stored_len 0, prev_stored_len 0, stamp 0 *)
-    let s3 := mkCvs (s_hdr s2) (s_hdr_mod s2) (s_data s2) (s_pg s2) 0 [] [] 0 in
+    (* … and the change directory is removed (base/read_write.rs:221) *)
+    let s3 := mkCvs (s_hdr s2) (s_hdr_mod s2) (s_data s2) (s_pg s2) 0 [] [] 0 (s_ssc s2) None in
     update_stamp s3 0.
 
   (* ---- write (read_write/any_stored_vec.rs:51-183) -------------------------------------- *)
@@ -309,6 +321,171 @@ Section CompVec.
       else Ok [] in
     Ok (st ++ s_pushed s).
 
+  (* ---- change records and rollback -------------------------------------------------------------
+     base/rollback.rs (serialize_changes :18, parse_change_data :52, apply_rollback :86,
+     save_change_file :94, save_prev :126, save_prev_for_rollback :131, read_current_change_file :136),
+     base/change/cursor.rs, compressed/inner/read_write/{rollback.rs, writable.rs:46-75, mod.rs:220},
+     traits/writable.rs:62 rollback_before *)
+  Definition u64b (v : N) : list N := le_enc 8 v.
+
+  (* mod.rs:220 collect_stored_range: the page loop *)
+  Fixpoint csr_pages (pv : list page) (d : list cell) (real_len from to : N) (idxs : list N) : res cverr (list T) :=
+    match idxs with
+    | [] => Ok []
+    | pi :: rest =>
+        let page_start := pi * PER_PAGE in
+        (* decode_page_with(real_len, pi, …): mod.rs:104 *)
+        if real_len <=? page_start then Err EIndexTooHigh else
+        match get pv pi with
+        | None => Err EExpectVecToHaveIndex
+        | Some pg =>
+            let! decoded := decode_page (page_data d pg) pg in
+            let local_from := from - page_start in                 (* saturating_sub *)
+            let local_to := N.min (to - page_start) (len decoded) in
+            if local_to <? local_from then Panic else               (* decoded[local_from..local_to] *)
+            let! more := csr_pages pv d real_len from to rest in
+            Ok (slice local_from local_to decoded ++ more)
+        end
+    end.
+
+  Definition collect_stored_range (s : cvs) (from to : N) : res cverr (list T) :=
+    if to <=? from then Ok [] else
+    let real_len := real_stored_len s in
+    let to := N.min to real_len in
+    if to <=? from then Ok [] else
+    let sp := from / PER_PAGE in
+    let ep := (to - 1) / PER_PAGE in
+    csr_pages (pg_vec (s_pg s)) (s_data s) real_len from to (seqN sp (N.to_nat (ep + 1 - sp))).
+
+  (* rollback.rs:18 serialize_changes *)
+  Definition serialize_changes (s : cvs) : res cverr (list N) :=
+    let psl := s_prev_stored_len s in
+    let sl := s_stored_len s in
+    let truncated := psl - sl in                                   (* saturating_sub *)
+    let! tv := if 0 <? truncated then collect_stored_range s sl psl else Ok [] in
+    Ok (u64b (cv_stamp s) ++ u64b psl ++ u64b sl ++ u64b truncated ++ values_to_bytes tv
+        ++ u64b (len (s_prev_pushed s)) ++ values_to_bytes (s_prev_pushed s)
+        ++ u64b (len (s_pushed s)) ++ values_to_bytes (s_pushed s)).
+
+  (* cursor.rs: (remaining bytes, absolute position) *)
+  Definition cursor := (list N * N)%type.
+  Definition check_remaining (c : cursor) (n : N) : res cverr unit :=
+    if two64 <=? snd c + n then Err EOverflow
+    else if len (fst c) <? n then Err EWrongLength else Ok tt.
+  Definition rd_u64 (c : cursor) : res cverr (N * cursor) :=
+    let! _ := check_remaining c 8 in Ok (le_dec (take 8 (fst c)), (drop 8 (fst c), snd c + 8)).
+  Definition rd_skip (c : cursor) (n : N) : res cverr cursor :=
+    let! _ := check_remaining c n in Ok (drop n (fst c), snd c + n).
+  Definition rd_values (c : cursor) (count : N) : res cverr (list T * cursor) :=
+    if two64 <=? size * count then Err EOverflow else
+    let total := size * count in
+    let! _ := check_remaining c total in
+    Ok (decode_vals (N.to_nat count) (take total (fst c)), (drop total (fst c), snd c + total)).
+
+  Record change := mkChange {
+    ch_prev_stamp : N; ch_prev_stored_len : N; ch_truncated_start : N;
+    ch_truncated_values : list T; ch_prev_pushed : list T }.
+
+  (* rollback.rs:52 parse_change_data *)
+  Definition parse_change (bs : list N) : res cverr change :=
+    let! (ps, c1) := rd_u64 (bs, 0) in
+    let! (psl, c2) := rd_u64 c1 in
+    let! c3 := rd_skip c2 8 in
+    let! (tc, c4) := rd_u64 c3 in
+    if psl <? tc then Err EUnderflow else
+    let! (tv, c5) := rd_values c4 tc in
+    let! (ppl, c6) := rd_u64 c5 in
+    let! (pp, c7) := rd_values c6 ppl in
+    let! (pl, c8) := rd_u64 c7 in
+    if two64 <=? size * pl then Err EOverflow else
+    let! _ := rd_skip c8 (size * pl) in
+    Ok (mkChange ps psl (psl - tc) tv pp).
+
+  (* compressed rollback.rs:26 deserialize_then_undo_changes + base apply_rollback *)
+  Definition cv_undo (s : cvs) (bs : list N) : cvs * res cverr unit :=
+    match parse_change bs with
+    | Err e => (s, Err e)
+    | Panic => (s, Panic)
+    | Ok ch =>
+        if s_stored_len s <? ch_truncated_start ch then (s, Err EIndexTooHigh) else
+        let '(sl, pushed) :=
+          match ch_truncated_values ch with
+          | [] => (ch_prev_stored_len ch, ch_prev_pushed ch)
+          | _ => (N.min (ch_truncated_start ch) (real_stored_len s), ch_truncated_values ch ++ ch_prev_pushed ch)
+          end in
+        let s1 := update_stamp s (ch_prev_stamp ch) in
+        (set_prev (set_pushed (set_stored_len s1 sl) pushed) pushed (s_prev_stored_len s1), Ok tt)
+    end.
+
+  Fixpoint lookup_file (dir : list (N * list N)) (st : N) : option (list N) :=
+    match dir with
+    | [] => None
+    | (k, v) :: t => if k =? st then Some v else lookup_file t st
+    end.
+
+  (* save_prev_for_rollback *)
+  Definition save_rollback_state (s : cvs) : cvs := set_prev s (s_pushed s) (s_stored_len s).
+  (* save_prev *)
+  Definition save_prev (s : cvs) : cvs := set_prev s [] (s_stored_len s).
+
+  (* writable.rs:59 rollback *)
+  Definition cv_rollback (s : cvs) : cvs * res cverr unit :=
+    match s_changes s with
+    | None => (s, Err EIo)
+    | Some dir =>
+        match lookup_file dir (cv_stamp s) with
+        | None => (s, Err EIo)
+        | Some bs =>
+            match cv_undo s bs with
+            | (s1, Ok _) => (save_rollback_state s1, Ok tt)
+            | (s1, r) => (s1, r)
+            end
+        end
+    end.
+
+  (* rollback.rs:94 save_change_file (called with saved_stamped_changes > 0) *)
+  Definition save_change_file (s : cvs) (stamp : N) (data : list N) : option (list (N * list N)) :=
+    let dir := match s_changes s with Some d => d | None => [] end in
+    let files := filter (fun f => (fst f <? stamp) && (fst f <=? cv_stamp s)) dir in
+    let excess := len files - (s_ssc s - 1) in
+    Some (drop excess files ++ [(stamp, data)]).
+
+  (* writable.rs:46 stamped_write_with_changes *)
+  Definition cv_commit (s : cvs) (st : N) (hints : list N) : cvs * res cverr bool :=
+    if s_ssc s =? 0 then cv_write (update_stamp s st) hints else
+    match serialize_changes s with
+    | Err e => (s, Err e)
+    | Panic => (s, Panic)
+    | Ok data =>
+        let s1 := set_roll s (s_ssc s) (save_change_file s st data) in
+        match cv_write (update_stamp s1 st) hints with
+        | (s2, Ok b) => (save_prev s2, Ok b)
+        | (s2, r) => (s2, r)
+        end
+    end.
+
+  (* traits/writable.rs:62 rollback_before: the loop over files.range(..=stamp).rev() *)
+  Fixpoint rb_loop (s : cvs) (target : N) (stamps : list N) : cvs * res cverr unit :=
+    match stamps with
+    | [] => (s, Ok tt)
+    | fs :: rest =>
+        let current := cv_stamp s in
+        if current <? target then (s, Ok tt) else
+        if negb (fs =? current) then (s, Err EStampMismatch) else
+        match cv_rollback s with
+        | (s1, Ok _) => rb_loop s1 target rest
+        | (s1, r) => (s1, r)
+        end
+    end.
+  Definition cv_rollback_before (s : cvs) (target : N) : cvs * res cverr unit :=
+    match s_changes s with
+    | None => (s, Err EIo)                                    (* read_dir on a missing directory *)
+    | Some dir =>
+        let stamps := rev (filter (fun st => st <=? cv_stamp s) (map fst dir)) in
+        (* since 533ea26 no save_rollback_state() here: each rollback() re-bases itself *)
+        rb_loop s target stamps
+    end.
+
   (* ---- the state machine ------------------------------------------------------------------- *)
   Inductive op :=
   | Push (vs : list T)
@@ -317,7 +494,16 @@ Section CompVec.
   | Flush (hints : list N)              (* AnyStoredVec::flush (+ Database::flush): same effect on the abstract regions *)
   | Reset
   | Reimport                            (* drop the vector, import it again from the regions *)
-  | StampedWrite (st : N) (hints : list N).   (* stamped_write / stamped_write_with_changes with saved_stamped_changes = 0 *)
+  | StampedWrite (st : N) (hints : list N)    (* stamped_write_with_changes(st) *)
+  | Rollback
+  | RollbackBefore (st : N).
+
+  Definition unit_res (r : cvs * res cverr unit) : cvs * res cverr bool :=
+    match r with
+    | (s, Ok _) => (s, Ok false)
+    | (s, Err e) => (s, Err e)
+    | (s, Panic) => (s, Panic)
+    end.
 
   Definition cv_step (s : cvs) (o : op) : cvs * res cverr bool :=
     match o with
@@ -326,12 +512,14 @@ Section CompVec.
     | Write h | Flush h => cv_write s h
     | Reset => (cv_reset s, Ok false)
     | Reimport =>
-        match cv_import (s_data s) (pg_disk (s_pg s)) with
+        match cv_import_k (s_ssc s) (s_changes s) (s_data s) (pg_disk (s_pg s)) with
         | Ok s' => (s', Ok false)
         | Err e => (s, Err e)
         | Panic => (s, Panic)
         end
-    | StampedWrite st h => cv_write (update_stamp s st) h
+    | StampedWrite st h => cv_commit s st h
+    | Rollback => unit_res (cv_rollback s)
+    | RollbackBefore st => unit_res (cv_rollback_before s st)
     end.
 
   Definition cv_run (s : cvs) (h : list op) : cvs := fold_left (fun s o => fst (cv_step s o)) h s.
@@ -379,3 +567,9 @@ Arguments Flush {T}.
 Arguments Reset {T}.
 Arguments Reimport {T}.
 Arguments StampedWrite {T}.
+Arguments Rollback {T}.
+Arguments RollbackBefore {T}.
+Arguments s_ssc {T} c.
+Arguments s_changes {T} c.
+Arguments set_prev {T}.
+Arguments set_roll {T}.
